@@ -139,7 +139,9 @@ ValidLay(y) == /\ y.cfg = "discover" => y.cwd # "sibling"       \* the search on
 LaySeq == SelectSeq([n \in 1..36 |-> LayN(n)], ValidLay)
 Layouts == {LaySeq[i] : i \in 1..Len(LaySeq)}
 \* deterministic spread of the layouts over the cases of the other families
-LayRot(n) == [LaySeq[(n % Len(LaySeq)) + 1] EXCEPT !.stale = ((n \div Len(LaySeq)) % 2 = 1)]
+\* a stale output named like the input in the working directory would itself be found by the search
+StaleOK(y) == ~(y.cfg = "discover" /\ y.out = "samebase")
+LayRot(n) == LET y == LaySeq[(n % Len(LaySeq)) + 1] IN [y EXCEPT !.stale = StaleOK(y) /\ ((n \div Len(LaySeq)) % 2 = 1)]
 
 VARIABLES fam,        \* case family
           shape,      \* tree shape
@@ -193,7 +195,7 @@ InitShape ==  /\ "shape" \in Families /\ fam = "shape" /\ shape \in Shapes /\ ba
 \* every layout (working directory x --config x --outfile x stale output), on a tree with every mapped setting
 InitLayout == /\ "layout" \in Families /\ fam = "layout" /\ shape = "full" /\ bad = "none" /\ nm = NoName
               /\ sets = [M \in AllLevels |-> Mapped \cup {"with-expecter"}] /\ vi = 1
-              /\ \E y \in Layouts, st \in BOOLEAN : lay = [y EXCEPT !.stale = st]
+              /\ \E y \in Layouts, st \in BOOLEAN : (st => StaleOK(y)) /\ lay = [y EXCEPT !.stale = st]
 InitNames ==  /\ "names" \in Families /\ fam = "names" /\ shape = "full" /\ bad = "none"
               /\ \E id \in NameIds, pos \in {"pkg", "iface"} : nm = [id |-> id, pos |-> pos] /\ lay = LayRot(IF pos = "pkg" THEN 4 ELSE 17)
               /\ sets = [M \in AllLevels |-> {"all", "mockname", "unroll-variadic", "quiet"} \ {"recursive"}]
